@@ -24,6 +24,12 @@ fn declare() {
     allow_unops(u(crate::unary_operator::UnaryOperator::Return) | u(crate::unary_operator::UnaryOperator::Indirection));
     allow_mask((1 << K_VARIABLE) | (1 << K_BINOPERATION) | (1 << K_UNARYOPERATION) | (1 << K_BLOCK) | (1 << K_IFELSE) | (1 << K_MATCH) | (1 << K_SETIFELSE) | (1 << K_LOOP));
 }
+fn kinds(mask: u32) {
+    use crate::instruction::verif_gate::*;
+    declare();
+    allow_mask((1 << K_VARIABLE) | mask);
+}
+use crate::instruction::verif_gate::{K_BINOPERATION, K_BLOCK, K_IFELSE, K_LOOP, K_MATCH, K_SETIFELSE, K_UNARYOPERATION};
 fn iws(i: Instruction) -> InstructionWithStr {
     InstructionWithStr { instruction: i, str: "e".into() }
 }
@@ -31,12 +37,10 @@ fn konst(v: i64) -> Instruction {
     Instruction::Variable(Variable::Int(v))
 }
 fn run(i: &Instruction) -> Result<Variable, ExecStop> {
-    declare();
     let mut interp = Interpreter::without_stdlib();
     i.exec(&mut interp)
 }
 fn folded(i: &Instruction) -> Instruction {
-    declare();
     let interp = Interpreter::without_stdlib();
     let mut lv = LocalVariables::new(&interp);
     let r = match i.recreate(&mut lv) {
@@ -63,6 +67,7 @@ fn the_match(scrutinee: Variable, x2: i64) -> Instruction {
 }
 /// kind of the scrutinee enumerated concretely (0 int, 1 float, 2 string, 3 array, 4 ()), value symbolic
 fn match_selects(kind: u8, fold: bool) {
+    kinds(1 << K_MATCH);
     crate::verif_model::set_order(0);
     let (x, x2): (i64, i64) = (kani::any(), kani::any());
     let f: f64 = kani::any();
@@ -101,6 +106,7 @@ match_harness!(match_void_folded, 4, true);
 /// a match accepted as exhaustive for a static type always has an arm for a value of that type:
 /// arms  a: [int] => 1 ; s: string|float => 2   against scrutinee types from the universe
 fn exhaustive(t: Ty) {
+    kinds(1 << K_MATCH);
     crate::verif_model::set_order(0);
     let arms: Vec<MatchArm> = vec![
         MatchArm::Type { ident: "a".into(), var_type: real(T_ARR_INT), instruction: iws(konst(1)) },
@@ -149,6 +155,7 @@ pub fn match_accepted_is_exhaustive_unions() {
 // ---------------------------------------------------------------------------------------------
 /// if x: T = e   runs the body exactly when the runtime type of e matches T
 fn set_if_else(kind: u8, fold: bool) {
+    kinds(1 << K_SETIFELSE);
     crate::verif_model::set_order(0);
     let x: i64 = kani::any();
     let e = match kind {
@@ -190,6 +197,7 @@ pub fn if_set_runs_body_iff_type_matches() {
 /// loop { cnt += 1; if cnt >= n { break } }  evaluates to () after exactly n iterations (n in 1..=3);
 /// also after the folding pass (a body of type `!` must not lose its loop)
 fn counted_loop(fold: bool, always_break: bool) {
+    kinds((1 << K_LOOP) | (1 << K_IFELSE) | (1 << K_BINOPERATION) | (1 << K_BLOCK));
     let n: i64 = kani::any();
     kani::assume(n >= 1 && n <= 3);
     let cnt = new_cell(Type::Int, Variable::Int(0));
@@ -225,6 +233,7 @@ pub fn loop_body_of_type_never_folded() { counted_loop(true, true); counted_loop
 #[kani::unwind(5)]
 #[kani::stub(alloc::fmt::format, crate::verif_common::stub_format)]
 pub fn break_affects_innermost_loop() {
+    kinds((1 << K_LOOP) | (1 << K_IFELSE) | (1 << K_BINOPERATION) | (1 << K_BLOCK));
     let outer = new_cell(Type::Int, Variable::Int(0));
     let inner_loop: Instruction = Loop(iws(Instruction::Break)).into();
     let bump: Instruction = BinOperation { lhs: Instruction::Variable(Variable::Mut(outer.clone())), rhs: konst(1), op: BinOperator::AssignAdd }.into();
@@ -246,6 +255,7 @@ pub fn break_affects_innermost_loop() {
 #[kani::unwind(5)]
 #[kani::stub(alloc::fmt::format, crate::verif_common::stub_format)]
 pub fn block_value_and_error_propagation() {
+    kinds((1 << K_LOOP) | (1 << K_BLOCK) | (1 << K_BINOPERATION) | (1 << K_UNARYOPERATION));
     let (a, b): (i64, i64) = (kani::any(), kani::any());
     let blk: Instruction = Block { instructions: Arc::from(vec![iws(konst(a)), iws(konst(b))]) }.into();
     assert!(is_int(&run(&blk), b));
@@ -267,7 +277,7 @@ pub fn block_value_and_error_propagation() {
 #[kani::unwind(5)]
 #[kani::stub(alloc::fmt::format, crate::verif_common::stub_format)]
 pub fn return_leaves_innermost_function() {
-    declare();
+    kinds((1 << K_LOOP) | (1 << K_UNARYOPERATION));
     let x: i64 = kani::any();
     let ret: Instruction = UnaryOperation { instruction: konst(x), op: UnaryOperator::Return }.into();
     // body: loop { return x }  ; 99
